@@ -12,6 +12,24 @@ the parsed report, directory snapshots before/after. Compared with the model's p
 and file set (`c14.run`, fed with the declarations as the real parser produced them and the
 configuration as the real validation produced it).
 
+Sibling output directories (`sibling` stream): several generators in ONE run whose output directories stand next to
+each other under names that are string prefixes of one another (`gen/cpp` / `gen/cppcli` / `gen/cppcli2`, `out` /
+`out_jni`, `gen/include` / `gen/include_jni`, a generator's own header / source split), relative / absolute / `./x/`
+spellings, `clean` on, stale files in every directory, and every target list in both orders. "Below a directory" is a
+relation on path components (`under_sibling`, `rmtree_keeps_sibling`; `text_prefix_is_not_under` is the counterexample
+for a test on the spelling); clause 6 of `c14.spec` compares the report with the files on disk per generator
+(`genStep_clean_disk_eq_writes`).
+
+Input files behind symbolic links (`links` stream): workspaces in which the directory of the root IDL, a directory in
+the middle of an import path or an include directory is a symbolic link, with `@import` / `@extern` / IDL / include
+paths containing `..` behind such a link (two-level import chains: what is imported *from* such a file inherits the
+spelling), decoy files at the lexically normalised location, and the two controls (links without `..`, `..` without
+links). The harness computes the files read with a walk of its own (`LinkFS.phys`, the documented search order); the
+specification takes an entry for the file it *denotes* (`Sys/Files.lean: phys`, the operating system's walk through the
+declared links; `phys_nil`: without links it is the lexical `resolve`; `normpath_changes_denotation`), and the worker
+reports what `os.path.realpath` says about every entry and which files below the sandbox were opened during `parse`
+(audit hook): entries exist, denote exactly the files read, each once, and these are the files opened.
+
 Several contexts of one API object (the generator instances are shared): streams of interleaved
 parse / generate (clean on/off) / report calls over two configurations with disjoint output directories
 (relative / absolute / split spellings mixed), observed call by call (write log slice, snapshot diff).
@@ -25,14 +43,17 @@ theorem: from any state of the API object, `generate` writes `<directory of the 
 Specification on the implementation's observation (`c14.spec`, Lean): every write below a configured
 output directory (not `<out>/<out>/…`), nothing else created/changed, deletions only by `clean` below
 the cleaned directories, report == write log per generator with its directories, inputs == root ∪
-transitive imports ∪ @extern files (from the import graph the harness built), report validates against
-the published `API().processed_files_model` and parses in its format.
+transitive imports ∪ @extern files (from the import graph the harness built; an entry stands for the file it denotes,
+by the model's walk and by `os.path.realpath` in the worker), every listed file exists afterwards and with `clean` a
+generator's section lists all files below its directories, report validates against the published
+`API().processed_files_model` and parses in its format.
 """
 from __future__ import annotations
 
 import json
 import os
 import random
+import re
 
 import sysgen
 
@@ -55,6 +76,14 @@ THEOREMS = [
     "Pydjinni.SysC.genStep_preserves_outside",
     "Pydjinni.SysC.runTargets_preserves_outside",
     "Pydjinni.SysC.runTargets_creates_only_writes",
+    "Pydjinni.SysC.under_sibling",
+    "Pydjinni.SysC.rmtree_keeps_sibling",
+    "Pydjinni.SysC.text_prefix_is_not_under",
+    "Pydjinni.SysC.genStep_clean_disk_eq_writes",
+    "Pydjinni.SysC.phys_nil",
+    "Pydjinni.SysC.physResolve_nil",
+    "Pydjinni.SysC.report_inputs_denote_reads",
+    "Pydjinni.SysC.normpath_changes_denotation",
     "Pydjinni.SysC.generateGens_files",
     "Pydjinni.SysC.api_generate_lands_in_own_dirs",
     "Pydjinni.SysC.api_generate_under_own_out",
@@ -116,17 +145,275 @@ def make_case(seed_key: str, tier_quick: bool, forced=None):
     opts = sysgen.make_options(r, targets, out_kind=out_kind, naming=r.choice(["default", "default", "random"]), report=report, include_dirs=[inc])
     clean = forced.get("clean", r.random() < 0.5)
     idl = os.path.relpath(prog["root"], cwd) if r.random() < 0.6 else "{ROOT}/" + prog["root"]
-    # pre-existing files: inside every output directory, next to them (sharing a name prefix), elsewhere
-    pre = {"README.txt": "keep me", "proj/notes.txt": "keep me too", "gen/keep.txt": "outside"}
-    for d in out_dirs(cwd, opts):
-        pre[f"{d}/stale_{len(pre)}.hpp"] = "stale"
-        pre[f"{d}/old/deep/stale.txt"] = "stale"
-        pre[f"{d}x/sibling.txt"] = "sibling of an output directory"
-        pre[f"{os.path.dirname(d)}/beside_{len(pre)}.txt"] = "beside"
+    pre = standard_pre(cwd, opts)
     calls = [{"op": "parse", "ctx": 0, "idl": idl}] + [{"op": "generate", "gc": 0, "target": t, "clean": clean} for t in targets] + [{"op": "report", "gc": 0}]
     job = {"files": prog["files"], "pre": pre, "cwd": cwd, "contexts": [opts], "calls": calls, "snapshot": True}
     meta = {"out_kind": out_kind, "cwd": cwd, "fmt": fmt, "report": rep_kind, "clean": clean, "targets": targets, "idl_abs": idl.startswith("{ROOT}"),
             "features": prog["features"], "reads": dfs_order(prog["root"], prog["imports"]), "exts": prog["externs"]}
+    return job, meta
+
+
+def standard_pre(cwd, opts):
+    """pre-existing files: inside every output directory, next to them (sharing a name prefix), elsewhere"""
+    pre = {"README.txt": "keep me", "proj/notes.txt": "keep me too", "gen/keep.txt": "outside"}
+    ds = out_dirs(cwd, opts)
+    for d in ds:
+        pre[f"{d}/stale_{len(pre)}.hpp"] = "stale"
+        pre[f"{d}/old/deep/stale.txt"] = "stale"
+        if not any(o == d + "x" or o.startswith(d + "x/") for o in ds):
+            pre[f"{d}x/sibling.txt"] = "sibling of an output directory"
+        pre[f"{os.path.dirname(d) or '.'}/beside_{len(pre)}.txt"] = "beside"
+    return pre
+
+
+# ---------------------------------------------------------------------------------------------------
+# sibling output directories whose names are string prefixes of one another
+# ---------------------------------------------------------------------------------------------------
+
+SIB_BASES = ["gen/cpp", "gen/include", "out", "out/x", "build/gen_a/src", "gen/objc"]
+SIB_SUFFIXES = ["cli", "2", "_jni", "-swift", "_h", ".d", "pp"]
+SIB_SPELLINGS = ["rel", "rel", "abs", "dotrel", "mixed"]
+
+
+def sibling_outs(r: random.Random, opts: dict, spelling: str):
+    """gives every generator section of `opts` an output directory (or a header and a source directory) out of ONE family
+    of sibling names: `chain`: each name is a string prefix of the next (`gen/cpp`, `gen/cppcli`, `gen/cppcli2`, …),
+    `star`: one short name and extensions of it (`out`, `out_jni`, `out2`, …). Which generator gets which name is random.
+    -> the family (for the statistics)"""
+    gen = opts["generate"]
+    keys = [k for k, c in gen.items() if isinstance(c, dict) and "out" in c]
+    r.shuffle(keys)
+    slots = []
+    for k in keys:
+        if k not in ("java", "yaml") and r.random() < 0.35:
+            slots += [(k, "header"), (k, "source")]
+        else:
+            slots.append((k, None))
+    if r.random() < 0.3:
+        r.shuffle(slots)            # a generator's own two directories need not be neighbours in the family
+    base = r.choice(SIB_BASES)
+    chain = r.random() < 0.6
+    sufs = r.sample(SIB_SUFFIXES, len(SIB_SUFFIXES))
+    names, cur = [], base
+    for i in range(len(slots)):
+        if i == 0:
+            names.append(base)
+        elif chain:
+            cur = cur + sufs[(i - 1) % len(sufs)]
+            names.append(cur)
+        else:
+            names.append(base + sufs[(i - 1) % len(sufs)] + ("" if i - 1 < len(sufs) else str(i)))
+    order = list(range(len(slots)))
+    r.shuffle(order)                # which slot gets the shortest name
+
+    def sp(name):
+        k = spelling if spelling != "mixed" else r.choice(["rel", "abs", "dotrel"])
+        return {"rel": name, "abs": "{ROOT}/" + name, "dotrel": "./" + name + "/"}[k]
+    outs: dict = {}
+    for (k, kind), j in zip(slots, order):
+        if kind is None:
+            outs[k] = sp(names[j])
+        else:
+            outs.setdefault(k, {})[kind] = sp(names[j])
+    for k, o in outs.items():
+        gen[k]["out"] = o
+    return {"base": base, "shape": "chain" if chain else "star", "names": len(names)}
+
+
+def make_sibling_case(seed_key: str, reverse: bool):
+    """several generators in one run, output directories out of one family of prefix-related sibling names; the same
+    configuration is run with the target list and with its reverse (`reverse`)"""
+    r = random.Random(seed_key)
+    pg = sysgen.ProgGen(r, stress="plain", multi_file=r.random() < 0.2, max_decls=r.choice([2, 3, 4]))
+    prog = pg.program()
+    cwd = r.choice(CWDS)
+    targets = r.sample(sysgen.TARGETS, r.choice([2, 2, 3, 4]))
+    fmt = r.choice(FORMATS)
+    rep_kind = r.choice(["rel", "sub", "abs"])
+    report = {"rel": f"processed.{fmt}", "sub": f"reports/out/files.{fmt}", "abs": "{ROOT}/abs_report." + fmt}[rep_kind]
+    inc = os.path.relpath("inc", cwd) if r.random() < 0.6 else "{ROOT}/inc"
+    opts = sysgen.make_options(r, targets, out_kind="rel", naming=r.choice(["default", "default", "random"]), report=report, include_dirs=[inc])
+    spelling = r.choice(SIB_SPELLINGS)
+    fam = sibling_outs(r, opts, spelling)
+    clean = r.random() < 0.85
+    idl = os.path.relpath(prog["root"], cwd) if r.random() < 0.6 else "{ROOT}/" + prog["root"]
+    if reverse:
+        targets = targets[::-1]
+    calls = [{"op": "parse", "ctx": 0, "idl": idl}] + [{"op": "generate", "gc": 0, "target": t, "clean": clean} for t in targets] + [{"op": "report", "gc": 0}]
+    job = {"files": prog["files"], "pre": standard_pre(cwd, opts), "cwd": cwd, "contexts": [opts], "calls": calls, "snapshot": True}
+    meta = {"out_kind": f"sibling:{fam['shape']}:{spelling}", "cwd": cwd, "fmt": fmt, "report": rep_kind, "clean": clean, "targets": targets,
+            "idl_abs": idl.startswith("{ROOT}"), "features": prog["features"] + [f"sibling-base:{fam['base']}", "reversed" if reverse else "forward"],
+            "reads": dfs_order(prog["root"], prog["imports"]), "exts": prog["externs"], "stream": "sibling"}
+    return job, meta
+
+
+# ---------------------------------------------------------------------------------------------------
+# input files behind symbolic links
+# ---------------------------------------------------------------------------------------------------
+
+class LinkFS:
+    """The harness's own picture of a sandbox with symbolic links to directories: regular files by their link-free
+    sandbox-relative path, links (link-free path of the link -> link-free path of the directory it points to), and
+    the walk the operating system makes (`..` leaves the directory *reached*)."""
+
+    def __init__(self, links=None):
+        self.files: dict[str, str] = {}
+        self.links: dict[str, str] = dict(links or {})
+
+    @staticmethod
+    def parts(s: str) -> list[str]:
+        return [c for c in s.split("/") if c not in ("", ".")]
+
+    def phys(self, parts: list[str], dirs: set | None = None):
+        """`dirs` given: every directory stepped through (or out of) has to exist — `x/../f` is no name for `f` if there
+        is no directory `x` — otherwise None"""
+        acc: list[str] = []
+        for i, c in enumerate(parts):
+            if c == "..":
+                acc = acc[:-1]
+            else:
+                acc.append(c)
+                t = self.links.get("/".join(acc))
+                if t is not None:
+                    acc = self.parts(t)
+                elif dirs is not None and i < len(parts) - 1 and "/".join(acc) not in dirs:
+                    return None
+        return "/".join(acc)
+
+    def directories(self) -> set:
+        ds = {""}
+        for f in list(self.files) + [t + "/." for t in self.links.values()] + list(self.links):
+            ps = f.split("/")[:-1]
+            for k in range(1, len(ps) + 1):
+                ds.add("/".join(ps[:k]))
+        return ds
+
+    def locate(self, spelled: str, cwd: str):
+        """the regular file `spelled` (`{ROOT}/…`, or relative to the working directory) denotes, if any"""
+        ps = self.parts(spelled[len("{ROOT}/"):]) if spelled.startswith("{ROOT}/") else self.parts(cwd) + self.parts(spelled)
+        return self.phys(ps, self.directories())
+
+
+def link_reads(fs: LinkFS, cwd: str, root_spelled: str, include_dirs: list[str]):
+    """the files a run reads, by the documented search order (the path as written relative to the working directory, the
+    directory of the importing file *as it was reached*, the include directories) -> (IDL files in reading order, @extern files)"""
+    reads, exts, seen = [], [], set()
+
+    def absolute(sp):       # `Path.absolute()`: the working directory in front, nothing normalised
+        return sp if sp.startswith("{ROOT}/") else "{ROOT}/" + "/".join(LinkFS.parts(cwd) + [sp])
+
+    def visit(spelled):
+        real = fs.locate(spelled, cwd)
+        reads.append(real)
+        d = os.path.dirname(spelled)
+        for kind, name in re.findall(r'^@(import|extern) "([^"]*)"', fs.files[real], flags=re.M):
+            cands = [name, (d + "/" if d else "") + name] + [i + "/" + name for i in include_dirs]
+            hit = next((c for c in cands if fs.locate(c, cwd) in fs.files), None)
+            if hit is None:
+                raise AssertionError(f"link layout: {name} of {spelled} does not resolve")
+            if kind == "extern":
+                exts.append(fs.locate(hit, cwd))
+                continue
+            key = fs.locate(hit, cwd)                   # a *file* is imported once, however it is spelled
+            if key not in seen:
+                seen.add(key)
+                visit(absolute(hit))
+    visit(root_spelled)
+    return reads, exts
+
+
+LINK_LAYOUTS = ["root-dir-linked", "springboard", "include-dir", "idl-dotdot", "mid-path-link", "control:no-links", "control:no-dotdot",
+                "identity:two-files-one-spelling", "identity:one-file-two-spellings"]
+
+
+def make_link_case(seed_key: str, layout: str | None = None):
+    """A workspace in which a directory on the way to an input file is a symbolic link and an `@import` / `@extern` /
+    IDL / include path has `..` behind it. `main` imports `common` (+ an `@extern` file), `common` imports `base`
+    (without `..` of its own, with `sub/..`, or with `../<dir>`): what is imported from a file inherits how that file was
+    reached. Decoys (valid files with other content) may lie where the lexically normalised path points."""
+    r = random.Random(seed_key)
+    layout = layout or r.choice(LINK_LAYOUTS)
+    fs = LinkFS()
+    P = r.choice(["checkout/p", "store/mono/repo_1"])
+    W = r.choice(["work", "ws/deep"])
+    inc: list[str] = []
+    if layout == "root-dir-linked":
+        fs.links[f"{W}/idl"] = f"{P}/idl"
+        cwd, root_rel, main_real, D, imp, decoy = W, "idl/main.pydjinni", f"{P}/idl/main.pydjinni", f"{P}/shared", "../shared/", f"{W}/shared"
+    elif layout == "springboard":
+        fs.links[f"{W}/lnk"] = f"{P}/shared/sub"
+        cwd, root_rel, main_real, D, imp, decoy = W, "main.pydjinni", f"{W}/main.pydjinni", f"{P}/shared", "lnk/../", W
+    elif layout == "include-dir":
+        fs.links[f"{W}/lnk"] = f"{P}/shared/sub"
+        inc = [r.choice(["lnk/../inc2", "{ROOT}/" + W + "/lnk/../inc2"])]
+        cwd, root_rel, main_real, D, imp, decoy = W, "main.pydjinni", f"{W}/main.pydjinni", f"{P}/shared/inc2", "", f"{W}/inc2"
+    elif layout == "idl-dotdot":
+        fs.links[f"{W}/lnk"] = f"{P}/shared/sub"
+        cwd, root_rel, main_real, D, imp, decoy = W, "lnk/../idl2/main.pydjinni", f"{P}/shared/idl2/main.pydjinni", f"{P}/shared/idl2", "", f"{W}/idl2"
+    elif layout == "mid-path-link":
+        fs.links[f"{P}/shared/ext"] = f"{P}/vendor/lib"
+        cwd, root_rel, main_real, D, imp, decoy = P, "idl/main.pydjinni", f"{P}/idl/main.pydjinni", f"{P}/vendor", "../shared/ext/../", f"{P}/shared"
+    elif layout.startswith("identity:"):
+        # the root's directory is a link (as in root-dir-linked). two-files-one-spelling: the root also imports the file that
+        # lies where the normalised spelling of its first import points — another file, to be read as well;
+        # one-file-two-spellings: a second file reaches `common` through an include directory given by its real path —
+        # the same file, to be read once
+        fs.links[f"{W}/idl"] = f"{P}/idl"
+        cwd, root_rel, main_real, D, imp, decoy = W, "idl/main.pydjinni", f"{P}/idl/main.pydjinni", f"{P}/shared", "../shared/", None
+        if layout == "identity:one-file-two-spellings":
+            inc = ["{ROOT}/" + D]
+    elif layout == "control:no-links":
+        cwd, root_rel, main_real, D, imp, decoy = P, "idl/main.pydjinni", f"{P}/idl/main.pydjinni", f"{P}/shared", "../shared/", None
+    else:  # control:no-dotdot — everything is reached through the link, nothing to normalise
+        fs.links[f"{W}/idl"] = f"{P}/idl"
+        cwd, root_rel, main_real, D, imp, decoy = W, "idl/main.pydjinni", f"{P}/idl/main.pydjinni", f"{P}/idl", "", None
+    deep = r.choice(["base.pydjinni", "sub/../base.pydjinni", f"../{os.path.basename(D)}/base.pydjinni"]) if layout != "control:no-dotdot" else "base.pydjinni"
+    with_ext = r.random() < 0.65
+    second = r.random() < 0.4            # a second import of the root, next to `common`
+    pg = sysgen.ProgGen(r, stress="plain", max_decls=r.choice([1, 2, 3]))
+    heads = ([f'@extern "{imp}point.yaml"'] if with_ext else []) + [f'@import "{imp}common.pydjinni"'] + ([f'@import "{imp}more.pydjinni"'] if second else [])
+    if r.random() < 0.3:
+        heads.reverse()
+    fs.files[main_real] = "\n".join(heads) + "\n" + (f"user_main = record {{ c: lib_common; n: i32;{' e: ext_point;' if with_ext else ''}{' m: lib_more;' if second else ''} }}\n"
+                                                     "svc_main = interface +cpp { lookup(key: lib_base) -> lib_common; }\n") + pg.body(pg.max_decls)
+    if layout == "identity:two-files-one-spelling":
+        fs.files[main_real] = '@import "shared/common.pydjinni"\n' + fs.files[main_real] + "user_local = record { l: lib_local; }\n"
+        fs.files[f"{W}/shared/common.pydjinni"] = "lib_local = enum { here; there; }\n"
+    if layout == "identity:one-file-two-spellings":
+        fs.files[main_real] = '@import "side.pydjinni"\n' + fs.files[main_real] + "user_side = record { s: lib_side; }\n"
+        fs.files[f"{P}/idl/side.pydjinni"] = '@import "common.pydjinni"\nlib_side = record { c: lib_common; }\n'
+    fs.files[f"{D}/common.pydjinni"] = f'@import "{deep}"\nlib_common = record {{ b: lib_base; tag: string; }}\n'
+    fs.files[f"{D}/base.pydjinni"] = "lib_base = enum { first; second; }\n"
+    fs.files[f"{D}/more.pydjinni"] = "lib_more = flags { lo; hi; }\n"
+    fs.files[f"{D}/point.yaml"] = sysgen.extern_yaml("ext_point", [])
+    fs.files[f"{D}/sub/keep.txt"] = "a directory to step out of"
+    for t in fs.links.values():
+        fs.files.setdefault(f"{t}/keep.txt", "the directory a link points to")
+    pre = {}
+    if decoy is not None and r.random() < 0.6:
+        # where the lexically normalised paths point: other files of the same names (valid, other content)
+        pre[f"{decoy}/common.pydjinni"] = "lib_common = record { decoy: bool; }\nlib_base = enum { decoy_item; }\n"
+        pre[f"{decoy}/base.pydjinni"] = "lib_base = enum { decoy_item; }\n"
+        pre[f"{decoy}/point.yaml"] = sysgen.extern_yaml("ext_point", ["decoy"])
+    pre = {k: v for k, v in pre.items() if k not in fs.files}
+    idl = root_rel if r.random() < 0.6 else "{ROOT}/" + cwd + "/" + root_rel
+    # decoys are part of the file system the search order sees
+    view = LinkFS(fs.links)
+    view.files = {**pre, **fs.files}
+    reads, exts = link_reads(view, cwd, idl, inc)
+    targets = r.sample(sysgen.TARGETS, r.choice([1, 1, 2]))
+    fmt = r.choice(FORMATS)
+    rep_kind = r.choice(["rel", "sub", "abs"])
+    report = {"rel": f"processed.{fmt}", "sub": f"reports/out/files.{fmt}", "abs": "{ROOT}/abs_report." + fmt}[rep_kind]
+    out_kind = r.choice(sysgen.OUT_KINDS)
+    opts = sysgen.make_options(r, targets, out_kind=out_kind, naming="default", report=report, include_dirs=inc)
+    clean = r.random() < 0.5
+    symlinks = {l: (os.path.relpath(t, os.path.dirname(l)) if r.random() < 0.6 else "{ROOT}/" + t) for l, t in fs.links.items()}
+    calls = [{"op": "parse", "ctx": 0, "idl": idl}] + [{"op": "generate", "gc": 0, "target": t, "clean": clean} for t in targets] + [{"op": "report", "gc": 0}]
+    job = {"files": fs.files, "pre": {**standard_pre(cwd, opts), **pre}, "cwd": cwd, "contexts": [opts], "calls": calls, "snapshot": True, "symlinks": symlinks}
+    meta = {"out_kind": out_kind, "cwd": cwd, "fmt": fmt, "report": rep_kind, "clean": clean, "targets": targets, "idl_abs": idl.startswith("{ROOT}"),
+            "features": sorted(pg.features) + [f"links:{layout}", f"deep:{deep}", "decoys" if pre else "no-decoys", "extern" if with_ext else "no-extern"],
+            "reads": reads, "exts": exts, "links": sorted(fs.links.items()), "stream": "links", "layout": layout}
     return job, meta
 
 
@@ -157,8 +444,18 @@ def absn(cwd_abs, p):
     return os.path.normpath(p if os.path.isabs(p) else os.path.join(cwd_abs, p))
 
 
-def compare(job, meta, obs, m):
-    """model prediction vs implementation -> list of differences"""
+def denoted(R, cwd_abs, p, links):
+    """the file an input entry of the report stands for: the walk through the sandbox's symbolic links (`LinkFS.phys`);
+    without links the lexical normalisation"""
+    a = p if os.path.isabs(p) else os.path.join(cwd_abs, p)
+    if not links or not a.startswith(R + "/"):
+        return os.path.normpath(a)
+    return os.path.join(R, LinkFS(dict(links)).phys(LinkFS.parts(a[len(R) + 1:])))
+
+
+def compare(job, meta, obs, m, s=None):
+    """model prediction vs implementation -> list of differences (`s`: answer of `c14.spec`, for the files the model's
+    walk makes the input entries denote)"""
     diffs = []
     R = obs["root"]
     cwd_abs = os.path.normpath(os.path.join(R, job["cwd"]))
@@ -190,12 +487,23 @@ def compare(job, meta, obs, m):
             for f in ("include_dir", "source_dir"):
                 if f in ig[k] and ig[k][f] != mg[k][f]:
                     diffs.append({"what": f"report generated.{k}.{f}", "impl": ig[k][f], "model": mg[k][f]})
-        iidl = [absn(cwd_abs, p) for p in rep.get("parsed", {}).get("idl", [])]
+        links = [tuple(x) for x in meta.get("links", [])]
+        iidl = [denoted(R, cwd_abs, p, links) for p in rep.get("parsed", {}).get("idl", [])]
         if iidl != m["report"]["idl"]:
             diffs.append({"what": "report parsed.idl (order of reads)", "impl": iidl, "model": m["report"]["idl"]})
-        iext = [absn(cwd_abs, p) for p in rep.get("parsed", {}).get("external_types", [])]
+        iext = [denoted(R, cwd_abs, p, links) for p in rep.get("parsed", {}).get("external_types", [])]
         if iext != m["report"]["ext"]:
             diffs.append({"what": "report parsed.external_types", "impl": iext, "model": m["report"]["ext"]})
+        # the walk of the model (harness mirror of `Sys/Files.lean: phys`) against `os.path.realpath` in the worker
+        for k, dk in (("idl", "denIdl"), ("external_types", "denExt")):
+            ents = (obs["reports"][-1].get("inputs") or {}).get(k, [])
+            lean = (s or {}).get(dk)
+            for j, e in enumerate(ents):
+                mine = os.path.relpath(denoted(R, cwd_abs, e["entry"], links), R)
+                if e["exists"] and e["real"] != mine:
+                    diffs.append({"what": "file denoted by a report entry: harness walk vs os.path.realpath", "entry": e["entry"], "model": mine, "os": e["real"]})
+                if e["exists"] and lean is not None and len(lean) == len(ents) and os.path.relpath(lean[j], R) != e["real"]:
+                    diffs.append({"what": "file denoted by a report entry: `phys` (Lean) vs os.path.realpath", "entry": e["entry"], "model": lean[j], "os": e["real"]})
     else:
         diffs.append({"what": "report missing or unreadable", "impl": obs.get("reports")})
     if sorted(obs["after"].keys()) != sorted(m["after"]):
@@ -209,11 +517,12 @@ def requests(job, meta, obs, tables):
     R = obs["root"]
     sreq = {**req, "op": "c14.spec", "impl": impl_view(job, meta, obs),
             "expectIdl": [os.path.normpath(os.path.join(R, p)) for p in meta["reads"]],
-            "expectExt": [os.path.normpath(os.path.join(R, p)) for p in meta["exts"]]}
+            "expectExt": [os.path.normpath(os.path.join(R, p)) for p in meta["exts"]],
+            "links": [[os.path.join(R, l), os.path.join(R, t)] for l, t in meta.get("links", [])]}
     return [req, sreq]
 
 
-def python_side(job, obs):
+def python_side(job, obs, meta=None):
     pyfails = []
     for c, rec in zip(job["calls"], obs["calls"]):
         if not rec["ok"] and not rec.get("skipped"):
@@ -226,6 +535,23 @@ def python_side(job, obs):
             pyfails.append({"key": "report-unreadable", "detail": str(rp["valid"])})
         elif rp["valid"] is not True:
             pyfails.append({"key": "report-schema", "detail": str(rp["valid"])})
+        if meta is not None and rp.get("inputs") is not None:
+            # by file identity, as the operating system sees it: every input entry names an existing file, the entries denote
+            # exactly the files read (each once), and these are the files the parse opened
+            listed = []
+            for k, want, label in (("idl", meta["reads"], "idl"), ("external_types", meta["exts"], "extern")):
+                ents = rp["inputs"].get(k, [])
+                gone = [e["entry"] for e in ents if not e["exists"]]
+                if gone:
+                    pyfails.append({"key": f"report-{label}-names-no-file", "detail": f"parsed.{k} lists {gone[:3]}, which do(es) not exist; the files read are {want}"})
+                got = sorted(e["real"] for e in ents if e["exists"])
+                listed += got
+                if not gone and got != sorted(os.path.normpath(w) for w in want):
+                    pyfails.append({"key": f"report-{label}-not-the-files-read", "detail": f"parsed.{k} denotes {got} (os.path.realpath), read were {sorted(want)}"})
+            opened = obs["calls"][0].get("opened") if obs["calls"] else None
+            if opened is not None and obs["calls"][0]["ok"] and set(opened) != set(os.path.normpath(w) for w in meta["reads"] + meta["exts"]):
+                pyfails.append({"key": "opened-files-not-the-expected-inputs",
+                                "detail": f"opened during parse: {sorted(set(opened))}; expected from the import graph: {sorted(meta['reads'] + meta['exts'])}"})
     return pyfails
 
 
@@ -236,7 +562,7 @@ def evaluate_many(ctx, items, tables):
     for a in answers:
         if "error" in a:
             raise RuntimeError(f"driver error {a}")
-    return [(answers[2 * i], answers[2 * i + 1], python_side(job, obs)) for i, (job, meta, obs) in enumerate(items)]
+    return [(answers[2 * i], answers[2 * i + 1], python_side(job, obs, meta)) for i, (job, meta, obs) in enumerate(items)]
 
 
 def evaluate(ctx, job, meta, obs, tables):
@@ -385,6 +711,8 @@ def evaluate_multi(ctx, job, meta, obs, tables):
     return fails, diffs
 
 
+SIBLING_CORPUS = ["corpus/c14/sibling/0", "corpus/c14/sibling/1", "corpus/c14/sibling/2"]
+
 CORPUS = [
     # witnesses of the two defects of the pinned tree (repaired by `fix:` commits): relative jni.out with loader + async, @extern file
     {"seed_key": "corpus/c14/relative-jni", "forced": {"targets": ["java"], "out_kind": "rel", "clean": False, "cwd": "."}},
@@ -412,6 +740,21 @@ def run(ctx):
     for i in range(n):
         key = f"{ctx.seed}/c14/{i}"
         cases.append(make_case(key, ctx.quick) + (key, None))
+    # sibling output directories (prefix-related names), every configuration with the target list in both orders
+    for i in range(ctx.n(14, 150)):
+        for rev in (False, True):
+            key = f"{ctx.seed}/c14/sibling/{i}"
+            cases.append(make_sibling_case(key, rev) + (key + ("/reversed" if rev else ""), {"stream": "sibling", "reverse": rev}))
+    for c in SIBLING_CORPUS:
+        for rev in (False, True):
+            cases.append(make_sibling_case(c, rev) + (c + ("/reversed" if rev else ""), {"stream": "sibling", "reverse": rev}))
+    # input files behind symbolic links: every layout once (seed-independent corpus of the class), then random
+    for lay in LINK_LAYOUTS:
+        key = f"corpus/c14/links/{lay}"
+        cases.append(make_link_case(key, lay) + (key, {"stream": "links", "layout": lay}))
+    for i in range(ctx.n(14, 200)):
+        key = f"{ctx.seed}/c14/links/{i}"
+        cases.append(make_link_case(key) + (key, {"stream": "links"}))
     mcases = []
     for sh in MULTI_SHAPES:
         key = f"{ctx.seed}/c14/multi/shape/{sh}"
@@ -432,6 +775,11 @@ def run(ctx):
                   nontrivial=nfiles > 1, sample={"targets": meta["targets"], "out": meta["out_kind"], "cwd": meta["cwd"], "files_written": nfiles})
         for k in ("out_kind", "cwd", "fmt", "clean"):
             ctx.stat(f"{k}={meta[k]}")
+        if meta.get("stream"):
+            ctx.stat("stream=" + meta["stream"])
+            if meta["stream"] == "links":
+                ctx.stat("links_layout=" + meta["layout"])
+                ctx.stat("links_entries_with_dotdot", sum(1 for e in (obs["reports"][-1].get("inputs") or {}).get("idl", []) if "/../" in e["entry"]) if obs.get("reports") else 0)
         for t in meta["targets"]:
             ctx.stat("target=" + t)
         for f in meta["features"]:
@@ -443,7 +791,7 @@ def run(ctx):
         replay = {"seed_key": key, "forced": forced, "job": job, "meta": meta}
         for f in s["fails"] + pyfails:
             ctx.report("files:" + f["key"], f"{f['key']}: {f['detail'][:200]}", {**replay, "failure": f, "spec": s})
-        d = compare(job, meta, obs, m)
+        d = compare(job, meta, obs, m, s)
         if d:
             breaks.append({**replay, "differences": d})
     # ---- several contexts of one API object --------------------------------------------------------
@@ -476,10 +824,10 @@ def run(ctx):
     elif breaks:
         ctx.stats["correspondence_first"] = json.dumps(breaks[0]["differences"][0])[:400]
     ctx.assumptions += [
-        "file system: case-sensitive, no symbolic links inside the sandbox; `..` is resolved lexically",
+        "file system: case-sensitive; symbolic links only on the input side (directories on the way to IDL / @extern / include files, one level: link targets are link-free), where an entry of the report stands for the file it denotes (`phys`); output directories, the report path and the working directory are link-free and `..` in them is resolved lexically (`resolve`)",
         "Dom relNamesClean: every relative name a generator passes consists of ordinary components (no '/', '.', '..'); true for names derived from IDL identifiers",
-        "Dom outDirsDisjoint: the output directories of different generators are not nested in each other (otherwise `clean` of one removes files of another)",
-        "report_inputs_exact is about the reads the front end issues; that these are root ∪ transitive imports (each once) is C16's theorem, checked here against the import graph",
+        "Dom outDirsDisjoint: the output directories of different generators are not nested in each other (otherwise `clean` of one removes files of another); directories *next to* each other are unrelated whatever their names (sibling stream)",
+        "report_inputs_exact is about the reads the front end issues; that these are root ∪ transitive imports (each once) is C16's theorem, checked here against the import graph — by file identity: the harness's walk of the documented search order through the sandbox's links, `os.path.realpath` of every report entry, and the files opened during parse",
     ]
 
 
@@ -493,5 +841,5 @@ def replay(ctx, body):
         return not fails
     obs = sysgen.run_jobs(ctx, [job], workers=1, tag="c14r")[0]
     m, s, pyfails = evaluate(ctx, job, meta, obs, tables)
-    print(json.dumps({"spec": s, "python_side": pyfails, "model_vs_impl": compare(job, meta, obs, m)}, indent=1)[:4000])
+    print(json.dumps({"spec": s, "python_side": pyfails, "model_vs_impl": compare(job, meta, obs, m, s)}, indent=1)[:4000])
     return s["holds"] and not pyfails
